@@ -8,6 +8,7 @@ import (
 	"encoding/hex"
 	"encoding/json"
 	"fmt"
+	"github.com/tmpim/casket/caskethttp/httpserver"
 	"net"
 	"os"
 	"path/filepath"
@@ -67,6 +68,8 @@ func (e *env) valid(n, variant, ht int) string {
 	return b.String()
 }
 
+var nextLoaderErr error // guarded by loaderMu
+
 var failKinds = []string{
 	"syntax", "unknown-directive", "bad-arg-timeouts", "bad-arg-gzip", "bad-arg-redir", "bad-arg-limits", "bad-arg-proxy-policy",
 	"missing-htpasswd", "malformed-htpasswd", "missing-cert", "missing-import", "missing-template-arg", "startup-callback-log", "startup-command",
@@ -76,7 +79,7 @@ var failKinds = []string{
 // lateKinds fail only after directive setup (MakeServers, startup callbacks,
 // listen) and are therefore accepted by a mere validation.
 var lateKinds = map[string]bool{"startup-callback-log": true, "listen-occupied": true, "listen-occupied-with-on-hook": true,
-	"startup-fails-after-on-hook": true, "tls-plaintext-mix": true}
+	"startup-fails-after-on-hook": true, "tls-plaintext-mix": true, "quic-udp-occupied": true}
 
 // invalid returns a configuration of marker n that must fail.
 func (e *env) invalid(kind string, n, ht int) string {
@@ -129,6 +132,10 @@ func (e *env) invalid(kind string, n, ht int) string {
 		return addA("on startup /bin/true\n log / " + filepath.Join(e.Dir, "no-such-dir", "access.log"))
 	case "tls-plaintext-mix":
 		return v + fmt.Sprintf("https://m.test:%d {\n tls self_signed\n}\n", e.P1)
+	case "quic-udp-occupied":
+		// loaded with QUIC switched on: every server also opens its port for UDP, and
+		// the UDP side of the third port is taken (its TCP side is free)
+		return v + fmt.Sprintf("http://d.test:%d {\n root %s\n}\n", e.P3, e.cfgDir(n))
 	}
 	return "{"
 }
@@ -294,6 +301,9 @@ func child(args []string) int {
 	}
 	defer occ.Close()
 	e.Occ = occ.Addr().(*net.TCPAddr).Port
+	if occU, err := net.ListenUDP("udp", &net.UDPAddr{Port: e.P3}); err == nil {
+		defer occU.Close() // the UDP side of the third port (kind quic-udp-occupied)
+	}
 	usesSignal := false
 	for _, s := range h.Steps {
 		if s.Op == "sigusr1" {
@@ -303,6 +313,9 @@ func child(args []string) int {
 	casket.RegisterCasketfileLoader("verif", casket.LoaderFunc(func(serverType string) (casket.Input, error) {
 		loaderMu.Lock()
 		defer loaderMu.Unlock()
+		if nextLoaderErr != nil {
+			return nil, nextLoaderErr
+		}
 		return nextInput, nil
 	}))
 	if usesSignal {
@@ -354,6 +367,7 @@ func child(args []string) int {
 		stepMu.Unlock()
 		var err error
 		lb.Take()
+		httpserver.QUIC = st.Kind == "quic-udp-occupied"
 		switch st.Op {
 		case "validate":
 			err = casket.ValidateAndExecuteDirectives(input, nil, true)
@@ -383,6 +397,11 @@ func child(args []string) int {
 		case "sigusr1":
 			loaderMu.Lock()
 			nextInput = input
+			nextLoaderErr = nil
+			if st.Kind == "loader-error" {
+				// the configuration cannot even be read (file deleted, unreadable)
+				nextLoaderErr = fmt.Errorf("scripted loader failure: configuration file is not readable")
+			}
 			loaderMu.Unlock()
 			syscall.Kill(os.Getpid(), syscall.SIGUSR1)
 			// wait for the signal handler to finish the reload (log lines are
@@ -453,7 +472,7 @@ func run(c *lib.Ctx) {
 	var jobs []job
 	// focused histories: failures of a RELOAD of a running instance (which
 	// inherits listeners), twice in a row, for the kinds that fail late
-	focusKinds := []string{"listen-occupied", "listen-occupied-with-on-hook", "startup-callback-log", "startup-fails-after-on-hook", "tls-plaintext-mix", "malformed-htpasswd", "setup-fails-after-on-hook", "missing-import"}
+	focusKinds := []string{"quic-udp-occupied", "listen-occupied", "listen-occupied-with-on-hook", "startup-callback-log", "startup-fails-after-on-hook", "tls-plaintext-mix", "malformed-htpasswd", "setup-fails-after-on-hook", "missing-import"}
 	fid := 100000
 	for rep := 0; rep < c.Pick(2, 12); rep++ {
 		for _, op := range []string{"restart", "sigusr1"} {
@@ -469,6 +488,19 @@ func run(c *lib.Ctx) {
 				fid++
 			}
 		}
+	}
+	// a SIGUSR1 reload whose configuration cannot be loaded at all, while hooks are registered
+	for rep := 0; rep < c.Pick(2, 8); rep++ {
+		ports := pickPorts(fid, 3)
+		e := env{Dir: filepath.Join(dir, fmt.Sprintf("f%d", fid)), P1: ports[0], P2: ports[1], P3: ports[2]}
+		os.MkdirAll(e.Dir, 0o755)
+		steps := []step{{Op: "start", Kind: "valid", N: 1, Variant: 2}, {Op: "sigusr1", Kind: "loader-error", N: 901}, {Op: "sigusr1", Kind: "loader-error", N: 902},
+			{Op: "sigusr1", Kind: "valid", N: 2, Variant: 2}, {Op: "sigusr1", Kind: "loader-error", N: 903}, {Op: []string{"restart", "sigusr1"}[rep%2], Kind: "valid", N: 3, Variant: 1}}
+		for _, st := range steps {
+			(&e).prepare(st.N)
+		}
+		jobs = append(jobs, job{fid, history{Env: e, Steps: steps}})
+		fid++
 	}
 	for i := 0; i < nh; i++ {
 		ports := pickPorts(i, 3)
